@@ -327,8 +327,8 @@ def noop(ex, st, fr, ins, name, argv):
 
 
 def throw_logic(ex, st, fr, ins, name, argv):
-    st.events.append(('throw', 'std::logic_error', ''))
-    st.status = 'throw:std::logic_error'
+    ex.throw(st, 'std::logic_error', ins)
+    return [st]
 
 
 E = re.escape
